@@ -36,5 +36,10 @@ func VerifyMerkelProof(txid, root, proof []byte, index uint32) bool {
 		index >>= 1
 	}
 
+	// the position must be smaller than 2^(path length)
+	if index != 0 {
+		return false
+	}
+
 	return bytes.Equal(current, root)
 }
